@@ -89,6 +89,8 @@ pub struct Interp<'c, Q: Queue> {
     pub force_drain: bool,
     /// trace of normalized return values (C18)
     pub trace: Option<Vec<TraceEv>>,
+    /// a clone kept aside by Op::Snapshot (with its model), the source of Op::RestoreFrom
+    pub snapshot: Option<(Q, Model, bool)>,
 }
 
 /// normalized return value for cross-execution comparison (C18): shape + priorities; ids only
@@ -178,19 +180,12 @@ impl<'c, Q: Queue> Interp<'c, Q> {
     /// which failures the property under decision owns
     pub fn owns(&self, g: Group, op: &'static str) -> bool {
         let pq = !Q::DOUBLE;
-        let extract_op = matches!(op, "pop" | "pop_if" | "peek_mut" | "ctor");
         match self.cfg.prop {
             0 => true,
-            1 => pq && (g == Group::Order || (g == Group::Panic && extract_op)),
-            2 => !pq && (g == Group::Order || (g == Group::Panic && extract_op)),
-            3 => {
-                matches!(g, Group::Content | Group::Ret)
-                    || (g == Group::Panic
-                        && matches!(
-                            op,
-                            "push" | "change_priority" | "change_priority_by" | "remove" | "pop" | "get" | "get_mut" | "into_vec" | "ctor"
-                        ))
-            }
+            // a history that cannot complete because a fault-free call panics violates "after any sequence"
+            1 => pq && matches!(g, Group::Order | Group::Panic),
+            2 => !pq && matches!(g, Group::Order | Group::Panic),
+            3 => matches!(g, Group::Content | Group::Ret | Group::Panic),
             4 => matches!(g, Group::Panic | Group::Tables),
             6 => g == Group::Sorted || (g == Group::Panic && matches!(op, "sorted" | "sorted_iter")),
             7 => {
@@ -198,8 +193,8 @@ impl<'c, Q: Queue> Interp<'c, Q> {
                     || (matches!(op, "extend" | "append" | "from_vec" | "from_iter" | "convert" | "ctor")
                         && g != Group::Tables)
             }
-            8 => matches!(op, "retain" | "retain_mut" | "iter_mut" | "pop_if") && !matches!(g, Group::Tables | Group::Alias | Group::IterMutContract),
-            9 => matches!(g, Group::Alias | Group::IterMutContract) || (g == Group::Panic && op == "iter_mut"),
+            8 => matches!(op, "retain" | "retain_mut" | "iter_mut" | "pop_if") && !matches!(g, Group::Tables | Group::IterMutContract),
+            9 => matches!(g, Group::Alias | Group::IterMutContract) || (g == Group::Panic && matches!(op, "iter_mut" | "adaptor_iter_mut")),
             11 => matches!(op, "push_increase" | "push_decrease") && g != Group::Tables,
             12 => g == Group::Tag,
             13 => {
@@ -549,6 +544,7 @@ impl<'c, Q: Queue> Interp<'c, Q> {
             after_special: false,
             force_drain: true,
             trace: if want_trace { Some(Vec::new()) } else { None },
+            snapshot: None,
         };
         it.stats.hit(match case.ctor.how {
             CtorKind::FromVec => "ctor_from_vec",
